@@ -367,9 +367,19 @@ impl C05 {
         for (profile, bin) in self.children.clone() {
             ctx.eval();
             ctx.count(&format!("runs/{profile}"));
-            let out = std::process::Command::new(&bin).arg("c05-child").arg(&enc).output();
+            // a child normally needs milliseconds; one that is still running after 60 s is given a
+            // second, longer chance before it is called stuck
+            let mut out = run_child(&bin, &enc, 60);
+            if let Ok(None) = out {
+                ctx.count("child-timeouts/first-attempt");
+                out = run_child(&bin, &enc, 180);
+            }
             let out = match out {
-                Ok(o) => o,
+                Ok(Some(o)) => o,
+                Ok(None) => {
+                    ctx.violation(&format!("stage-does-not-finish:{profile}"), format!("recipe {enc}: the {profile} child was still running after 60 s and, started again, after 180 s"));
+                    continue;
+                }
                 Err(e) => {
                     ctx.inconclusive(format!("cannot spawn {bin}: {e}"));
                     continue;
@@ -436,6 +446,40 @@ impl C05 {
             ctx.count(&format!("single-construct/{what}/{}", if n <= 79 { "below-limit" } else { "at-or-beyond-limit" }));
         }
     }
+}
+
+/// run one child; `Ok(None)` when it had to be killed after `secs` seconds
+fn run_child(bin: &str, enc: &str, secs: u64) -> std::io::Result<Option<std::process::Output>> {
+    use std::io::Read;
+    use std::process::Stdio;
+    let mut child = std::process::Command::new(bin).arg("c05-child").arg(enc).stdin(Stdio::null()).stdout(Stdio::piped()).stderr(Stdio::piped()).spawn()?;
+    let mut so = child.stdout.take().expect("piped");
+    let mut se = child.stderr.take().expect("piped");
+    let h1 = std::thread::spawn(move || {
+        let mut v = Vec::new();
+        let _ = so.read_to_end(&mut v);
+        v
+    });
+    let h2 = std::thread::spawn(move || {
+        let mut v = Vec::new();
+        let _ = se.read_to_end(&mut v);
+        v
+    });
+    let t0 = std::time::Instant::now();
+    let status = loop {
+        if let Some(st) = child.try_wait()? {
+            break Some(st);
+        }
+        if t0.elapsed().as_secs() >= secs {
+            let _ = child.kill();
+            let _ = child.wait();
+            break None;
+        }
+        std::thread::sleep(std::time::Duration::from_millis(if t0.elapsed().as_millis() < 50 { 1 } else { 10 }));
+    };
+    let stdout = h1.join().unwrap_or_default();
+    let stderr = h2.join().unwrap_or_default();
+    Ok(status.map(|status| std::process::Output { status, stdout, stderr }))
 }
 
 impl Check for C05 {
